@@ -123,6 +123,14 @@ pub struct Cfg {
     pub adversarial_insert: bool,
     pub mismatch_pct: u32,
     pub expr_depth: u32,
+    /// swarm over operation kinds: a builder op whose kind hashes to a cleared bit is redrawn, so
+    /// each run concentrates on a subset of the vocabulary (more repeats and rare adjacent pairs)
+    #[serde(default = "all_ones")]
+    pub op_mask: u64,
+}
+
+fn all_ones() -> u64 {
+    u64::MAX
 }
 
 pub struct MH {
